@@ -1,9 +1,55 @@
+import os
+
+
+def extra(ctx):
+    """Wire-level stage (notes/ISISSpeaker.md): harness/cmd/isisspeaker feeds generated PDU BYTES to the receiver of a real
+    Server (hello sender, LSDB routines, LSP updater, adjacency checkers all real, injected clock), captures every frame
+    written, decodes them with packet.Decode and evaluates a spec oracle; incl. two real servers back to back.
+    ocaml/isisspeaker/isisspeaker_run.ml replays the same bytes through the extracted Model/ISISSpeaker.v (composition
+    of the C30 codec, C31 adjacency and C32 LSDB models) and compares state and frames byte for byte."""
+    vlib = ctx["vlib"]
+    lines, stats = [], {}
+    ok, exe, log = vlib.build_harness("isisspeaker")
+    if not ok:
+        return {"lines": ["HARNESS-ERROR isisspeaker harness does not build: " + log.strip()[-600:]], "stats": stats}
+    n = {"quick": 450, "thorough": 6000}[ctx["tier"]]
+    outdir = os.path.join(ctx["outdir"], "isisspeaker")
+    rc, out, trace, hstats = vlib.run_harness_once(exe, {"id": "ISISSpeaker"}, ctx["tier"], ctx["seed"], "check", n, outdir, timeout=1500)
+    hl = out.split("\n")
+    lines += [l for l in hl if l.startswith("SPEC-VIOLATION") or l.startswith("HARNESS-ERROR")]
+    if rc != 0 and not lines:
+        lines.append("HARNESS-ERROR isisspeaker harness exit=%d %s" % (rc, out.strip()[-400:]))
+    ncases, distinct, samples = vlib.trace_stats(trace)
+    stats.update({"evaluations": ncases, "speaker_cases": ncases, "speaker_distinct_nontrivial": distinct,
+                  "speaker_distribution": hstats.get("distribution", {}), "speaker_samples": [x[:600] for x in samples[:1]]})
+    mprop = {"modelrun": {"name": "isisspeaker", "extracted": ["isisspeaker_model"], "driver": "ocaml/isisspeaker/isisspeaker_run.ml"}}
+    mok, mexe, mlog = vlib.build_modelrun(mprop)
+    if not mok:
+        lines.append("MODEL-ERROR isisspeaker modelrun does not build: " + (mlog or "")[-400:])
+        return {"lines": lines, "stats": stats}
+    rc, mout = vlib.run_modelrun(mexe, trace)
+    for l in mout.split("\n"):
+        if l.startswith("CORR-MISMATCH") or l.startswith("MODEL-ERROR"):
+            lines.append(l[:900])
+        if l.startswith("STATS "):
+            stats["speaker_model_stats"] = l
+    if rc != 0 and not any(l.startswith("CORR-MISMATCH") for l in lines):
+        lines.append("MODEL-ERROR isisspeaker modelrun exit=%d %s" % (rc, mout.strip()[-300:]))
+    return {"lines": lines, "stats": stats}
+
+
 PROP = {
     "id": "C32",
-    "coq_targets": ["Properties/C32.vo", "Extract/C32Extract.vo"],
+    "coq_targets": ["Properties/C32.vo", "Extract/C32Extract.vo", "Properties/ISISSpeaker.vo", "Extract/ISISSpeakerExtract.vo"],
+    "more_properties_files": ["Properties/ISISSpeaker.v"],
+    "extra": extra,
     "properties_file": "Properties/C32.v",
     "theorems": ["C32_highest_seq_kept", "C32_kept_until_aged_out", "C32_highest_seq_history", "C32_flag_rules",
-                 "C32_flags_invariant", "C32_refresh_before_expiry", "C32_own_seq_dominates", "C32_ids_are_full"],
+                 "C32_flags_invariant", "C32_refresh_before_expiry", "C32_own_seq_dominates", "C32_ids_are_full",
+                 # wire-level speaker: composition of the C30/C31/C32/C33 models (Properties/ISISSpeaker.v, notes/ISISSpeaker.md)
+                 "ISISSpeaker_garbage_changes_nothing", "ISISSpeaker_other_pdu_types_change_nothing",
+                 "ISISSpeaker_ack_roundtrips", "ISISSpeaker_hello_reflects_adjacency",
+                 "ISISSpeaker_lsp_roundtrip_lists_up", "ISISSpeaker_service_installs_own_lsp"],
     "allowed_axioms": [],
     "harness": "c32",
     "modelrun": {"name": "c32", "extracted": ["c32_model"], "driver": "ocaml/c32/c32_run.ml"},
